@@ -1875,6 +1875,10 @@ lyd_new_path_(struct lyd_node *parent, const struct ly_ctx *ctx, const struct ly
             lyd_insert_node(cur_parent, NULL, node, LYD_INSERT_NODE_DEFAULT);
         } else if (parent) {
             /* connect to top-level siblings */
+            while (lyd_parent(parent)) {
+                parent = lyd_parent(parent);
+            }
+            parent = lyd_first_sibling(parent);
             lyd_insert_node(NULL, &parent, node, LYD_INSERT_NODE_DEFAULT);
         }
 
